@@ -832,6 +832,16 @@ func casesC07(g *Gen) []*Case {
 		{"undeclared_slot", `@component("~tag", {t: "x"})@slot B@end@end`, "tag"},
 		{"duplicate_slot", `@component("~box", {t: "x", show: true})@slot("f")A@end@slot("f")B@end@end`, "box"},
 		{"duplicate_slot", `@component("~box", {t: "x", show: true})@slot A@end@slot B@end@end`, "box"},
+		// the same slot twice with another one in between, three times, and in the other order
+		{"duplicate_slot_apart", `@component("~box", {t: "x", show: true})@slot("f")A@end@slot M@end@slot("f")B@end@end`, "box"},
+		{"duplicate_slot_apart", `@component("~box", {t: "x", show: true})@slot A@end@slot("f")M@end@slot B@end@end`, "box"},
+		{"duplicate_slot_apart", `@component("~wrap", {t: "x", show: true})@slot("head")A@end@slot M@end@slot("head")B@end@slot N@end@end`, "wrap"},
+		{"duplicate_slot_apart", `@component("~wrap", {t: "x", show: false})
+  @slot one @end
+  @slot("head") H @end
+  @slot two @end
+@end`, "wrap"},
+		{"duplicate_slot_apart", `@component("~box", {t: "x", show: true})@slot("f")A@end@slot M@end@slot("f")B@end@slot("f")C@end@end`, "box"},
 		{"missing_component", `a@component("~gone", {t: "x"})`, "gone"},
 		{"missing_component", `@if(true)@component("components/none")@end`, "none"},
 	}
@@ -1007,6 +1017,25 @@ func casesC13(g *Gen) []*Case {
 		} else {
 			c.Oracle = expectResults(map[int]func(string) string{0: wantNewOK, 1: wantErrLine(line, f.msgPart)})
 		}
+		cs = append(cs, c)
+	}
+	// a fault in the page's own slot body is a fault in the page: its line in the page and the page's path, although the body is
+	// evaluated while the component is rendered
+	for i := 0; i < g.scale(300, 6000); i++ {
+		f := evalFaults[g.n(len(evalFaults))]
+		if f.kind == "illegal_character" || f.kind == "unexpected_token" {
+			continue
+		}
+		pageName := g.pick([]string{"about", "zlast"})
+		head := g.preamble() + g.pick([]string{"@component(\"widgets/card\")\n@slot\n", "@component(\"widgets/card\")@slot", "@component(\"widgets/card\")\n  @slot(\"side\")\n  ",
+			"@component(\"widgets/card\")\n@slot\nfine\n@end\n@slot(\"side\")\n\n"})
+		line := strings.Count(head, "\n") + 1
+		t := newTree()
+		t.files["tpl/widgets/card.tw"] = g.pick([]string{"", "\n\n", "{{-- c\n --}}\n"}) + "<div>@slot</div>\n<i>@slot(\"side\")</i>\n"
+		t.files["tpl/"+pageName+".tw"] = head + f.src + g.pick([]string{"@end@end", "\n@end\n@end\n"})
+		ops := []string{opNew("tpl", ".tw", "", false), opStr(pageName, nil)}
+		c := histCase("slot_body_"+f.kind, t, ops, "NewTemplate; String("+pageName+")")
+		c.Oracle = expectResults(map[int]func(string) string{0: wantNewOK, 1: wantErrAt(line, "tpl/"+pageName+".tw", f.msgPart)})
 		cs = append(cs, c)
 	}
 	for i := 0; i < g.scale(4000, 100000); i++ {
